@@ -350,3 +350,42 @@ Definition complete (h : list ev) : bool :=
 Definition pool_final_ok (limit : nat) (h : list ev) : bool :=
   complete h ||
   Nat.leb limit (count_occ_b (fun e => ekind_eqb (e_k e) KBegin && Nat.eqb (e_op e) 3 && Nat.eqb (e_c e) 1) h).
+
+(* ------------------------------------------------------------------ ImmutableResource (history monitor)
+   events: KInv 0 b=now | KBegin 0 b=now (the user fetch starts) | KEnd 0 a=value c=1 if fetch
+           returned an error (a may be non-nil all the same) | KRet 0 a=resource (0 = nil) b=1 if an
+           error is returned.
+   Sharing contract: a Get only ever hands out a resource that a SUCCESSFUL fetch returned; once
+   some Get has returned a resource without error, every Get invoked later returns that same
+   resource without error (no refetch, no replacement); a fetch is attempted only if none was
+   attempted before or more than the refresh interval has passed since the last attempt. *)
+Record ir_mon := mkirm { im_goods : list nat; im_shared : option nat; im_snap : list (nat * option nat);
+                         im_lastb : option nat }.
+Definition ir_mon0 : ir_mon := mkirm [] None [] None.
+
+Definition ir_mon_step (interval : nat) (m : ir_mon) (e : ev) : option ir_mon :=
+  let t := e_t e in
+  match e_k e with
+  | KInv => Some (mkirm (im_goods m) (im_shared m) (aset Nat.eqb t (im_shared m) (im_snap m)) (im_lastb m))
+  | KBegin =>
+      match im_lastb m with
+      | None => Some (mkirm (im_goods m) (im_shared m) (im_snap m) (Some (e_b e)))
+      | Some l => if Nat.ltb (l + interval) (e_b e)
+                  then Some (mkirm (im_goods m) (im_shared m) (im_snap m) (Some (e_b e))) else None
+      end
+  | KEnd => Some (mkirm (if Nat.eqb (e_c e) 0 then e_a e :: im_goods m else im_goods m) (im_shared m) (im_snap m) (im_lastb m))
+  | KRet =>
+      if (Nat.eqb (e_a e) 0 || existsb (Nat.eqb (e_a e)) (im_goods m)) &&
+         match alookup Nat.eqb t (im_snap m) with
+         | Some (Some v) => Nat.eqb (e_a e) v && Nat.eqb (e_b e) 0
+         | _ => true
+         end
+      then Some (mkirm (im_goods m)
+                       (match im_shared m with
+                        | None => if Nat.eqb (e_b e) 0 && negb (Nat.eqb (e_a e) 0) then Some (e_a e) else None
+                        | sh => sh
+                        end) (im_snap m) (im_lastb m))
+      else None
+  end.
+
+Definition ir_accepts (interval : nat) (h : list ev) : bool := accepts (ir_mon_step interval) ir_mon0 h.
